@@ -60,9 +60,17 @@ EquivOn(w, r, A) == w = r \/ LET fw == Flat(w) fr == Flat(r) IN \A a \in A : Eva
 
 \* ---- k = "equiv": utility output r must denote what the specification term w denotes (C08 excavate/burrow,
 \*      C09 simplify) ----
+\* A ClaripyZeroDivisionError is the documented exemption when some division of the input has a divisor that is zero
+\* under some assignment (the utility met the concrete division while rearranging the expression).
+CanDivZero(t, A) ==
+  LET f == Flat(t)
+      nd == Cardinality({i \in 1..Len(f) : f[i][1] \in DivOps})
+  IN \E a \in A : LET D == Divisors(f, a) IN \E j \in 1..nd : IsZero(D[j])
+
 UEquiv(e, A) ==
   LET p == PreBad(e.out, TypeOf(e.w), TypeOf(e.r)) IN
-  IF p # {} THEN p ELSE IF EquivOn(e.w, e.r, A) THEN {} ELSE {"meaning"}
+  IF e.out = "ZeroDiv" THEN (IF TypeOf(e.w) >= 0 /\ CanDivZero(e.w, A) THEN {} ELSE {"zerodiv-unjustified"})
+  ELSE IF p # {} THEN p ELSE IF EquivOn(e.w, e.r, A) THEN {} ELSE {"meaning"}
 
 \* ---- k = "subst": replace / replace_dict.  e.e = the AST claripy holds, e.os / e.ns = the nodes to replace
 \*      and their replacements, e.r = the result, e.same = "the result is the very object passed in".
@@ -73,10 +81,29 @@ SubstMap(t, os, ns) ==
   IF \E i \in 1..Len(os) : os[i] = t THEN ns[CHOOSE i \in 1..Len(os) : os[i] = t]
   ELSE <<t[1], t[2], t[3], [i \in 1..Len(t[4]) |-> SubstMap(t[4][i], os, ns)] \o <<>> >>
 
+\* claripy evaluates a node eagerly when all its operands are concrete (that is how every constructor behaves, see
+\* C01), so "substitutes exactly" is stated up to the evaluation of variable-free sub-terms: Fold replaces every
+\* maximal variable-free sub-term by its value.  Nothing else may differ.
+Leaves == {"BVS","BoolS","BVV","BoolV"}
+RECURSIVE Fold(_)
+Fold(t) ==
+  IF t[1] \in Leaves THEN t
+  ELSE IF FreeVars(t) = {} THEN (IF IsBoolT(t) THEN <<"BoolV", "", EvalV(t, <<>>), <<>> >> ELSE <<"BVV", "", EvalV(t, <<>>), <<>> >>)
+  ELSE <<t[1], t[2], t[3], [i \in 1..Len(t[4]) |-> Fold(t[4][i])] \o <<>> >>
+
+\* a variable-free division / remainder node whose divisor evaluates to zero: the documented reason for a
+\* ClaripyZeroDivisionError instead of an expression
+RECURSIVE HasConcDivZero(_)
+HasConcDivZero(t) ==
+  \/ t[1] \in DivOps /\ Len(t[4]) = 2 /\ FreeVars(t) = {} /\ IsZero(EvalV(t[4][2], <<>>))
+  \/ \E i \in 1..Len(t[4]) : HasConcDivZero(t[4][i])
+
 USubst(e) ==
-  IF e.out # "ok" THEN {"outcome"}
-  ELSE LET s == SubstMap(e.e, e.os, e.ns) IN
-       (IF s = e.r THEN {} ELSE {"subst"}) \cup (IF s = e.e /\ ~e.same THEN {"untouched"} ELSE {})
+  LET s == SubstMap(e.e, e.os, e.ns) IN
+  IF e.out = "ZeroDiv" THEN (IF TypeOf(s) >= 0 /\ HasConcDivZero(s) THEN {} ELSE {"zerodiv-unjustified"})
+  ELSE IF e.out # "ok" THEN {"outcome"}
+  ELSE IF TypeOf(s) < 0 THEN {"input-outside-language"}
+  ELSE (IF Fold(s) = Fold(e.r) THEN {} ELSE {"subst"}) \cup (IF s = e.e /\ ~e.same THEN {"untouched"} ELSE {})
 
 \* ---- k = "canon": canonicalize.  e.map = <<old name, new name>> pairs taken from the returned var_map ----
 MapFn(pairs) == [n \in {pairs[i][1] : i \in 1..Len(pairs)} |-> pairs[CHOOSE i \in 1..Len(pairs) : pairs[i][1] = n][2]]
@@ -163,6 +190,18 @@ UTruth(e, A) ==
   ELSE LET fw == Flat(e.w) IN
        IF e.f = "is_true" THEN (IF \A a \in A : EvalF(fw, a) = T1 THEN {} ELSE {"is_true-overclaims"})
        ELSE (IF \A a \in A : EvalF(fw, a) # T1 THEN {} ELSE {"is_false-overclaims"})
+
+\* ---- k = "truths" (C10): all truth checks asked about one term at one point of a history.
+\*      e.qs = sequence of records [f |-> "is_true" | "is_false", via, out, ans, cached] ----
+UTruths(e, A) ==
+  LET n == Len(e.qs)
+      Claims(f) == \E i \in 1..n : e.qs[i].out = "ok" /\ e.qs[i].ans /\ e.qs[i].f = f
+  IN (IF \E i \in 1..n : e.qs[i].out # "ok" THEN {"outcome"} ELSE {})
+     \cup (IF ~(Claims("is_true") \/ Claims("is_false")) THEN {}
+           ELSE IF TypeOf(e.w) # 0 THEN {"input-outside-language"}
+           ELSE LET fw == Flat(e.w) IN
+                (IF Claims("is_true") /\ ~(\A a \in A : EvalF(fw, a) = T1) THEN {"is_true-overclaims"} ELSE {})
+                \cup (IF Claims("is_false") /\ ~(\A a \in A : EvalF(fw, a) # T1) THEN {"is_false-overclaims"} ELSE {}))
 
 \* ---- k = "z3abs" (C09): meaning of the Z3 declaration kinds that BackendZ3.op_map maps (SMT-LIB semantics).
 \*      e.zop = Z3 operator, e.ints = its integer parameters, e.args = operand terms, e.r = what
@@ -251,7 +290,10 @@ UZ3Abs(e, A) ==
       T == [i \in 1..n |-> TypeOf(e.args[i])] \o <<>>
       okIn == e.zop \in Z3Ops /\ \A i \in 1..n : T[i] >= 0
       p == PreBad(e.out, IF okIn THEN Z3Type(e.zop, e.ints, T) ELSE -1, TypeOf(e.r))
-  IN IF p # {} THEN p
+  IN IF e.out = "ZeroDiv"      \* exemption: a division whose divisor is zero under every assignment (claripy folds it)
+     THEN (IF okIn /\ e.zop \in {"bvudiv","bvurem","bvsdiv","bvsrem","bvsmod"} /\ \A a \in A : IsZero(EvalV(e.args[2], a))
+           THEN {} ELSE {"zerodiv-unjustified"})
+     ELSE IF p # {} THEN p
      ELSE LET fa == [i \in 1..n |-> Flat(e.args[i])] \o <<>>
               fr == Flat(e.r)
           IN IF \A a \in A : EvalF(fr, a) = Z3Apply(e.zop, e.ints, [i \in 1..n |-> EvalF(fa[i], a)] \o <<>>)
